@@ -67,7 +67,7 @@ def build_tree(rng, root):
             files[i].append(None)
         else:
             target_abs = os.path.join(root, files[i + 1][0])
-            kind = rng.choice(["dot", "dot", "bare", "dotdot", "absolute", "paren"])
+            kind = rng.choice(["dot", "dot", "bare", "dotdot", "absolute", "paren", "let-paren"])
             relp = os.path.relpath(target_abs, here)
             if kind == "absolute":
                 spec = target_abs
@@ -90,10 +90,12 @@ def build_tree(rng, root):
             else:
                 spec = "./" + relp if not relp.startswith("..") else relp
                 if relp.startswith("../.."):
-                    kind = "dotdot2" if kind != "paren" else "paren"
+                    kind = "dotdot2" if kind not in ("paren", "let-paren") else kind
                 elif relp.startswith(".."):
-                    kind = "dotdot" if kind != "paren" else "paren"
-            text_spec = f"({spec})" if kind == "paren" else spec
+                    kind = "dotdot" if kind not in ("paren", "let-paren") else kind
+            # let-paren: the path literal is the body of a let (the node is copied when the let is
+            # lifted: the copy must still know which file it came from)
+            text_spec = f"({spec})" if kind == "paren" else (f"(let x = 1; in {spec})" if kind == "let-paren" else spec)
             body = f"{{\n  id = {fid};\n  next = import {text_spec};\n  other = {uid()};\n}}\n"
             hop_kinds.append(kind)
             relspecs.append(spec)
